@@ -110,6 +110,8 @@ QUICK_EXTRA = 6000        # quick: sampled (position, errno) cells outside the p
 QUICK_PAIRS = 4000        # quick: sampled two-fault cells
 QUICK_FAMILY = {"spawn_combo": 10, "fs_read_size": 8}   # quick: parameter values per family (default: all)
 LOW_MASKS = (1, 3, 7)     # "low descriptors free" mode: 0 / 0,1 / 0,1,2 closed during the window
+POST = 16                 # marker::SCOPE_POST: the call is executed, only its reported result is replaced
+QUICK_ARGPOST = 1500      # quick: sampled post-close cells of argument-domain variants
 QUICK_ARGCELLS = 3000     # quick: sampled (argument variant, position, plausible errno) cells
 ARGIDS = set()            # plan ids of the argument-domain variants (filled by run)
 QUICK_LOW = 2500          # quick: sampled (scenario, mask, position, plausible errno) cells in that mode
@@ -180,8 +182,10 @@ class Case:
         """label of the fault; in signatures a persistent fault (#k+) is filed under its first failing call (#k)"""
         if not self.injected:
             return None
-        s = "%s%s#%d%s" % ("child-" if self.scope == 2 else "", nrname(self.nr), self.k,
+        s = "%s%s#%d%s" % ("child-" if self.scope & 15 == 2 else "", nrname(self.nr), self.k,
                            "+" if (self.count > 1 and not sig) else "")
+        if self.scope & POST:
+            s += "-post"   # executed, but the caller is told it failed (close: the descriptor is gone all the same)
         if self.second:
             s += "-then-%s%s#%d" % ("child-" if self.second[0] == 2 else "", nrname(self.second[1]), self.second[4])
         return s
@@ -211,6 +215,7 @@ class Window:
         self.problems = []        # (kind, text, fd, origin)
         self.inj_hit = False
         self.inj_hits = 0
+        self.root_closes = []     # (event, issued by the probe itself) for every close of the root process
         self.recvmsg_seq = 0      # seq of the last successful recvmsg of the root process in the window
         self.created = 0
         self.closed = 0
@@ -303,13 +308,18 @@ def analyse(log_path):
             continue  # another program now; its descriptors are not the operation's
         who = "" if e.tgid == root else "child-"
         cur.nsys += 1
-        if e.inj:
+        if e.inj or getattr(e, "post", False):
             cur.inj_hit = True
             cur.inj_hits += 1
         elif e.nr == syslog.NR["recvmsg"] and e.ret >= 0 and e.tgid == root:
             cur.recvmsg_seq = e.seq
         if e.tgid == root and in_op:
             cur.parent_seq.append(e)
+        if e.tgid == root and e.nr == syslog.NR["close"]:
+            # every close of the root process in the window, drop phase included; the probe's own closes of
+            # raw handed-over descriptors (libc, after REPORT(12)) are not the repository's
+            fdn = e.args[0] & 0xffffffff
+            cur.root_closes.append((e, (not in_op) and fdn in cur.handed))
         elif e.tgid in kids and e.tgid not in kid_execed:
             cur.child_seq.append(e)
             if e.nr == syslog.NR["execve"] and e.ret == 0:
@@ -535,6 +545,7 @@ def _run(ck, quick, probe, sysmon, names, family, workdir, only, rep):
     base_leaks = {}
     base_other = {}   # steal / double-close kinds the un-injected run shows already (charged there only)
     plans = []
+    postplans = []
     nscn = 0
     for c in base_cases:
         w = base.get(c.cid)
@@ -562,6 +573,13 @@ def _run(ck, quick, probe, sysmon, names, family, workdir, only, rep):
             occ[e.nr] += 1
             if injectable(e):
                 plans.append((c.scn, 2, e.nr, k, idx, c.low))
+            elif e.nr == syslog.NR["close"] and not c.low:
+                postplans.append((c.scn, 2 | POST, e.nr, k, idx))
+        # close() that is executed but reports failure (EINTR / EIO: on Linux the descriptor is released either way)
+        if not c.low:
+            for k, (e, own) in enumerate(w.root_closes):
+                if not own:
+                    postplans.append((c.scn, 1 | POST, e.nr, k, -1))
     ck.count("scenario_variants", nscn)
     ck.count("scenarios", len(ids))
     # ---------------- phase 2: one case per (scenario, call index, errno) -----------------------------------
@@ -602,11 +620,20 @@ def _run(ck, quick, probe, sysmon, names, family, workdir, only, rep):
     if quick and not rep:
         rng.shuffle(lowcells)
         lowcells = lowcells[:QUICK_LOW]
+    postcells = [(scn, scope, nr, k, idx, en, 0) for scn, scope, nr, k, idx in postplans
+                 for en in (E["EINTR"], E["EIO"])]
+    if quick and not rep:
+        # all of them for the plain scenarios, a seeded sample for the argument-domain variants
+        plain = [x for x in postcells if x[0] not in ARGIDS]
+        argp = [x for x in postcells if x[0] in ARGIDS]
+        rng.shuffle(argp)
+        postcells = plain + argp[:QUICK_ARGPOST]
+    ck.count("post_close_cells", len(postcells))
     if quick and not rep:
         rng.shuffle(argcells)
         argcells = argcells[:QUICK_ARGCELLS]
     ck.count("argument_variant_fault_cells", len(argcells))
-    for scn, scope, nr, k, idx, en, low in lowcells + argcells:
+    for scn, scope, nr, k, idx, en, low in lowcells + argcells + postcells:
         cid += 1
         cases.append(Case(scn, cid, scope, nr, k, -en, idx, low=low))
     if rep and rep.get("fault"):
@@ -627,7 +654,7 @@ def _run(ck, quick, probe, sysmon, names, family, workdir, only, rep):
             continue
         report(ck, names, c, w, base_leaks.get((c.scn, c.low)), base_other.get((c.scn, c.low)))
         # ---------------- phase 3 plan: a second fault at every call that follows the first one ----------------
-        if c.low or c.scn in ARGIDS or c.count != 1 or not w.inj_hit or -c.ret not in [E[n] for n in PLAUSIBLE.get(nrname(c.nr), DEFAULT_ERRNOS)]:
+        if c.low or c.scn in ARGIDS or c.scope & POST or c.count != 1 or not w.inj_hit or -c.ret not in [E[n] for n in PLAUSIBLE.get(nrname(c.nr), DEFAULT_ERRNOS)]:
             continue
         hit = [e for e in w.parent_seq + w.child_seq if e.inj]
         if len(hit) != 1:
@@ -702,7 +729,9 @@ def report(ck, names, c, w, base_leaks, base_other=None):
     fault = c.fault()
     if c.injected:
         ck.count("faults_armed")
-        if c.scope == 2:
+        if c.scope & POST:
+            ck.count("faults_armed_post_close")
+        if c.scope & 15 == 2:
             ck.count("faults_armed_in_child")
         if c.second:
             ck.count("fault_pairs_armed")
